@@ -916,4 +916,362 @@ Proof.
     + unfold name_reply. rewrite Hj. f_equal. rewrite !tag_out_app. norm_log. reflexivity.
     + unfold tr_complete. cbn [rs_open rs_st]. rewrite E1. reflexivity.
 Qed.
+
+(* the hash sender stopped before the verdict: the ack reader waits for an answer that never comes;
+   neither side ever reports success *)
+Lemma entry_blocked c d e sc ess st names L ln st1 hs acks :
+  tr_json_names c = true ->
+  tr_has_subs e = false -> te_isdir e = false -> (te_isdir e && negb (tr_json c)) = false ->
+  tr_create c d (tr_payload c e) [] st = (NOk ln, st1) ->
+  (0 <? tr_target_size d ln (tr_payload c e) st1) = true ->
+  tr_resume_run hx c e sc (tr_old_content st1 (tr_leaf d ln (tr_payload c e))) = Resume.SenderBlocked hs acks ->
+  let cf := runf (1 + (1 + (length (tr_resume_pre digest c e) + (length hs + length acks)))) c d (between c ((e, sc) :: ess) st names L) in
+  stepc c d cf = None /\ tr_sender_ok digest cf = false /\ tr_receiver_ok digest cf = false.
+Proof.
+  intros Hj Hsub Hd E0 E1 Hts Hrun.
+  set (leaf := tr_leaf d ln (tr_payload c e)) in *.
+  destruct (target_size_pos d ln (tr_payload c e) st1 Hts) as [Hold Etsz]. fold leaf in Hold, Etsz.
+  set (old := tr_old_content st1 leaf) in *. set (src := te_data e) in *.
+  pose proof (resume_run_cases hx c e sc old Hj Hold) as Hcases. cbv zeta in Hcases. fold src in Hcases.
+  set (size := Nat.min (length src) (length old)) in *. set (l := rs_steps sc src old) in *.
+  rewrite Hrun in Hcases.
+  destruct ((size =? 0)%nat || Proofs.Resume.verdict hx src old size l) eqn:Hv; [discriminate|].
+  apply orb_false_iff in Hv as [Hnz Hverd]. apply Nat.eqb_neq in Hnz.
+  injection Hcases as Ehs Eacks. subst hs acks.
+  destruct (recv_honest_steps hx sc src old) as (rst & Hrecv & _ & Hacksrst). fold l in Hrecv, Hacksrst.
+  destruct (rs_steps_props sc src old) as [Hincr Hall]. fold l size in Hincr, Hall.
+  assert (Hloop : Resume.recv_hashes B hx old (map (Proofs.Resume.mk hx src) l) Resume.r_init = Resume.RBlocked rst).
+  { rewrite recv_hashes_app in Hrecv.
+    destruct (Resume.recv_hashes B hx old (map (Proofs.Resume.mk hx src) l) Resume.r_init) as [rx|r1| | |] eqn:E; try discriminate.
+    - exfalso. apply (recv_hashes_no_over B hx old _ Resume.r_init rx) in E; [exact E|].
+      intros x Hx. apply in_map_iff in Hx as (y & <- & _). discriminate.
+    - cbn in Hrecv. inversion Hrecv. reflexivity. }
+  pose proof (send_hashes_steps hx sc src old) as Hsend. cbv zeta in Hsend. fold size l in Hsend.
+  assert (Hfin : exists sz ms rr lg,
+    runf (1 + (1 + (length (tr_resume_pre digest c e) + (length (map (Proofs.Resume.mk hx src) l ++ [Resume.Over]) + length (Proofs.Resume.acks_of hx src old l))))) c d
+      (between c ((e, sc) :: ess) st names L) =
+    mkConf digest (mkSS (SpHash sz ms) ((e, sc) :: ess) (tr_add_name names ln))
+      (mkRSx (RpSize (tr_payload c e)) (S (length ess)) st (tr_add_name names ln) (sc :: map snd ess) rr) [] [] lg);
+  [|destruct Hfin as (sz & ms & rr & lg & Hfin); cbv zeta; rewrite Hfin; split; [reflexivity | split; reflexivity]].
+  do 4 eexists. rewrite between_cons.
+  rewrite run_add, (run_one _ _ _ _ (step_recv' _ _ _ _ _ _ _ _)), rcv_name.
+  unfold tr_r_name. cbn [rs_st rs_names rs_phase rs_left rs_sched rs_open].
+  rewrite E1, payload_archive, Hsub, andb_false_r, (payload_isdir _ _ E0), Hd.
+  cbn [orb]. rewrite Hj, Hts. cbn [andb fst snd app]. fold leaf. fold old.
+  unfold tr_r_phase. cbn [rs_st rs_names rs_phase rs_left rs_sched rs_open].
+  rewrite run_add, (run_one _ _ _ _ (step_send' _ _ _ _ _ _ _)).
+  rewrite (snd_name_target c e sc ess names ln _ Hj).
+  unfold tr_s_named. rewrite Hsub, andb_false_r, Hd, Hts. cbn [ss_names].
+  unfold tr_s_resume. rewrite Etsz, (resume_size_min e old). fold src size. rewrite Hsend.
+  destruct (Nat.eqb_spec size 0) as [Hz|_]; [contradiction|].
+  rewrite map_app. cbn [map tr_hmsg fst snd]. rewrite <- !app_assoc.
+  assert (Hpre : forall rl rn rs q r2s lg,
+    runf (length (tr_resume_pre digest c e)) c d
+      (mkConf digest rs
+         (mkRSx (if tc_proto c <? Consts.tr_proto_resume_nosize then RpHSize (tr_payload c e) leaf old else RpHash (tr_payload c e) leaf old Resume.r_init) rl st rn (sc :: map snd ess) None)
+         (tr_resume_pre digest c e ++ q) r2s lg) =
+    mkConf digest rs (mkRSx (RpHash (tr_payload c e) leaf old Resume.r_init) rl st rn (sc :: map snd ess) None) q r2s lg).
+  { intros rl rn rs q r2s lg. unfold tr_resume_pre. destruct (tc_proto c <? Consts.tr_proto_resume_nosize); [|reflexivity].
+    cbn [length app]. rewrite (run_one _ _ _ _ (step_recv' _ _ _ _ _ _ _ _)), rcv_hsize. cbn [fst snd]. rewrite !app_nil_r. reflexivity. }
+  rewrite run_add, Hpre.
+  rewrite app_length. cbn [length]. rewrite map_length.
+  replace (length l + 1 + length (Proofs.Resume.acks_of hx src old l))%nat
+    with (length (map (Proofs.Resume.mk hx src) l) + (1 + length (Proofs.Resume.acks_of hx src old l)))%nat
+    by (rewrite map_length; lia).
+  rewrite run_add, (recv_hash_loop c d (tr_payload c e) leaf old _ _ _ _ _ _ _ _ rst _ _ _ Hloop).
+  cbn [Resume.r_init Resume.r_acks length skipn]. rewrite Hacksrst. cbn [app].
+  rewrite run_add, (run_one _ _ _ _ (step_recv' _ _ _ _ _ _ _ _)), rcv_over. unfold tr_r_over.
+  cbn [fst snd rs_left rs_st rs_names rs_sched]. rewrite app_nil_r.
+  rewrite <- (app_nil_r (map hack_of (Proofs.Resume.acks_of hx src old l))) at 1.
+  change 0%Z with (Z.of_nat 0).
+  rewrite (send_hacks c d e sc ess _ _ src old size l 0 [] _ Hincr Hall), Hverd. unfold after_hacks.
+  reflexivity.
+Qed.
+
+(* ---------- an archive: NAME (archive:true), reply, then the entry stream as a file ---------- *)
+Definition arch_log (c : tr_cfg) (e : tr_entry) (sc : tr_sched) (ln : name) (f : tr_entry) : list (bool * msg) :=
+  [(true, TrName digest (tr_payload c e)); (false, name_reply c ln 0); (true, TrSize digest (te_size f))]
+  ++ tail_log c f sc ++ [(false, TrSuccDigest digest (H (te_data f)))].
+
+Lemma entry_arch c d e sc ess st names L ln st1 f t :
+  table_ok c -> tr_json_names c = true -> tr_has_subs e = true -> (te_isdir e && negb (tr_json c)) = false ->
+  tr_create c d (tr_payload c e) [] st = (NOk ln, st1) ->
+  tr_arch_entry ahdr e sc = Some f -> te_isdir f = false -> te_size f = Z.to_N (tr_arch_size ahdr e) ->
+  bytes_ok (te_data f) = true ->
+  tr_unarchive aparse (te_id e) sc (te_data f) = Some t ->
+  runf (2 + (tail_steps c f sc + 2)) c d (between c ((e, sc) :: ess) st names L) =
+  between c ess (tr_graft_st st1 (d ++ [ln]) t) (tr_add_name names ln) (L ++ arch_log c e sc ln f).
+Proof.
+  intros Ht Hj Hsub E0 E1 Ef Hdf Hsz Hb Hun.
+  pose proof (pipeline_of_json_names c Hj) as Hp. pose proof (json_of_json_names c Hj) as Hjs.
+  assert (Hpa : tr_p_archive (tr_payload c e) = true) by (rewrite payload_archive, Hjs, Hsub; reflexivity).
+  rewrite between_cons.
+  rewrite run_add. cbn [tr_run_from].
+  rewrite (step_recv' _ _ _ _ _ _ _ _), rcv_name.
+  unfold tr_r_name. cbn [rs_st rs_names rs_phase rs_left rs_sched rs_open]. rewrite E1, Hpa, orb_true_r, Hj.
+  unfold tr_r_phase. cbn [rs_st rs_names rs_phase rs_left rs_sched rs_open fst snd app].
+  rewrite (step_send' _ _ _ _ _ _ _), (snd_name_target c e sc ess names ln _ Hj).
+  unfold tr_s_named. rewrite Hj, Hsub, Ef. cbn [andb ss_names]. unfold tr_s_size. rewrite <- Hsz. cbn [fst snd].
+  rewrite run_add, (file_tail_v2 c d (tr_payload c e) f sc ess _ _ _ _ _ None _ Hp Ht Hb Hdf).
+  2:{ intros _. rewrite (payload_aid c e Hjs). eauto. }
+  erewrite (md5_steps c d (tr_payload c e) f sc ess (length ess) st _ (map snd ess)); [| | reflexivity | reflexivity].
+  - unfold arch_log, name_reply. rewrite Hj. f_equal. norm_log. reflexivity.
+  - unfold tr_complete. cbn [rs_open rs_st]. rewrite Hpa, E1, (payload_aid c e Hjs). unfold tr_cur_sched. cbn [rs_sched].
+    rewrite Hun. reflexivity.
+Qed.
+
+(* ---------- all entries ---------- *)
+(* the messages of one item, by the way it is received (the specification decides which) *)
+Definition entry_log (c : tr_cfg) (d : path) (e : tr_entry) (sc : tr_sched) (st : state) (ln : name) : list (bool * msg) :=
+  match tr_create c d (tr_payload c e) [] st with
+  | (NErr, _) => []
+  | (NOk _, st1) =>
+    if tr_has_subs e then match tr_arch_entry ahdr e sc with Some f => arch_log c e sc ln f | None => [] end
+    else if te_isdir e then dir_log c e ln
+    else if tr_json_names c && (0 <? tr_target_size d ln (tr_payload c e) st1) then
+      match tr_resume_run hx c e sc (tr_old_content st1 (tr_leaf d ln (tr_payload c e))) with
+      | Resume.Done o => resume_log c e sc ln (tr_target_size d ln (tr_payload c e) st1) o
+      | _ => []
+      end
+    else if tr_pipeline c then file_log_v2 c e sc ln else file_log_v1 c e sc ln
+  end.
+
+Fixpoint all_log (c : tr_cfg) (d : path) (ess : list (tr_entry * tr_sched)) (st : state) (per : list name) : list (bool * msg) :=
+  match ess, per with
+  | (e, sc) :: ess', ln :: per' =>
+    entry_log c d e sc st ln ++
+    match spec_entry c d e sc st with Some (_, st') => all_log c d ess' st' per' | None => [] end
+  | _, _ => []
+  end.
+
+Fixpoint esteps (c : tr_cfg) (d : path) (ess : list (tr_entry * tr_sched)) (st : state) : nat :=
+  match ess with
+  | [] => 0
+  | (e, sc) :: r =>
+    tr_entry_steps digest zcomp hx ahdr c d e sc st +
+    match spec_entry c d e sc st with Some (_, st') => esteps c d r st' | None => 0 end
+  end.
+
+(* what is assumed of one item: contents are bytes; SubFiles only in archive mode and well-formed;
+   their headers decode *)
+Definition item_ok (c : tr_cfg) (e : tr_entry) : Prop :=
+  Forall (fun m => bytes_ok (te_data m) = true) (tr_members e) /\
+  (te_subs e <> [] -> tr_archive_mode c = true /\ tr_subs_wf e) /\
+  (forall s, In s (te_subs e) -> tr_hdr_ok1 ahdr aparse s).
+
+Lemma has_subs_ne e : tr_has_subs e = true -> te_subs e <> [].
+Proof. unfold tr_has_subs. destruct (te_subs e); [discriminate | discriminate]. Qed.
+
+Lemma item_bytes c e : item_ok c e -> bytes_ok (te_data e) = true.
+Proof. intros (Hb & _). inversion Hb; assumption. Qed.
+
+(* the archive "file" of an item that is in order *)
+Lemma arch_item c e sc : item_ok c e -> tr_has_subs e = true ->
+  exists f t, tr_arch_entry ahdr e sc = Some f /\ te_isdir f = false /\ te_size f = Z.to_N (tr_arch_size ahdr e) /\
+    bytes_ok (te_data f) = true /\ tr_unarchive aparse (te_id e) sc (te_data f) = Some t.
+Proof.
+  intros (Hb & Hw & Hh) Hsub. destruct (Hw (has_subs_ne e Hsub)) as [_ Hwf].
+  destruct (arch_entry_ok ahdr e sc) as (f & Ef & Hdata & Hdf & _ & _ & _ & Hsz).
+  destruct (unarchive_ok ahdr aparse e sc Hwf Hh) as (t & Et & _).
+  exists f, t. split; [exact Ef|]. split; [exact Hdf|]. split; [exact Hsz|]. rewrite Hdata. split; [|exact Et].
+  apply (arch_stream_bytes ahdr aparse e Hwf Hh). inversion Hb; assumption.
+Qed.
+
+Lemma entry_run c d e sc ess st names L ln st' : table_ok c -> item_ok c e ->
+  spec_entry c d e sc st = Some (ln, st') ->
+  runf (tr_entry_steps digest zcomp hx ahdr c d e sc st) c d (between c ((e, sc) :: ess) st names L) =
+  between c ess st' (tr_add_name names ln) (L ++ entry_log c d e sc st ln).
+Proof.
+  intros Ht Hok Hs. pose proof (item_bytes c e Hok) as Hb. destruct (tr_has_subs e) eqn:Hsub.
+  - (* an archive *)
+    destruct Hok as (Hb' & Hw & Hh). destruct (Hw (has_subs_ne e Hsub)) as [Ham _].
+    destruct (archive_mode_facts c Ham) as (_ & Hj & Hjs & Hp).
+    destruct (arch_item c e sc (conj Hb' (conj Hw Hh)) Hsub) as (f & t & Ef & Hdf & Hsz & Hbf & Et).
+    unfold tr_spec_entry in Hs. destruct (te_isdir e && negb (tr_json c)) eqn:E0; [discriminate|].
+    unfold tr_entry_steps, entry_log.
+    destruct (tr_create c d (tr_payload c e) [] st) as [[l1|] st1] eqn:E1; [|discriminate].
+    rewrite Hsub, Ef, Et in Hs. inversion Hs; subst l1 st'. clear Hs.
+    rewrite Hj, Hsub, Ef. cbn [andb]. rewrite (tail_steps_eq c f sc Hp).
+    apply (entry_arch c d e sc ess st names L ln st1 f t Ht Hj Hsub E0 E1 Ef Hdf Hsz Hbf Et).
+  - destruct (spec_plain_inv c d e sc st ln st' Hsub Hs) as (E0 & st1 & E1 & Hrest).
+    unfold tr_entry_steps, entry_log. rewrite E1, Hsub, andb_false_r.
+    destruct (te_isdir e) eqn:Hd.
+    + subst st'. assert (E0' : te_isdir e && negb (tr_json c) = false) by (rewrite Hd; exact E0).
+      apply (entry_dir c d e sc ess st names L ln st1 Hsub Hd E0' E1).
+    + assert (E0' : te_isdir e && negb (tr_json c) = false) by (rewrite Hd; exact E0). clear E0. rename E0' into E0.
+      destruct (tr_json_names c && (0 <? tr_target_size d ln (tr_payload c e) st1)) eqn:E2.
+      * destruct Hrest as (o & Er & ->). rewrite Er. apply andb_true_iff in E2 as [Hj Hts].
+        replace (2 + (length (tr_resume_pre digest c e) + length (Resume.o_hashes o) + length (Resume.o_acks o)
+                      + tr_tail_steps digest zcomp c (tr_rem_entry e (Resume.o_msend o)) sc))%nat
+          with (resume_steps c e sc o) by (unfold resume_steps; rewrite (tail_steps_eq c _ sc (pipeline_of_json_names c Hj)); lia).
+        apply (entry_resume c d e sc ess st names L ln st1 o Ht Hb Hj Hsub Hd E0 E1 Hts Er).
+      * destruct Hrest as (ln2 & E3). destruct (tr_pipeline c) eqn:Hp.
+        -- rewrite (tail_steps_eq c e sc Hp).
+           apply (entry_file_v2 c d e sc ess st names L ln st1 ln2 st' Hp Ht Hb Hsub Hd E0 E1 E2 E3).
+        -- replace (2 + tr_tail_steps digest zcomp c e sc)%nat with (steps_v1 e sc)
+             by (unfold tr_tail_steps, steps_v1; rewrite Hp, dbl_spec; lia).
+           apply (entry_file_v1 c d e sc ess st names L ln st1 ln2 st' Hp Ht Hb Hsub Hd E0 E1 E2 E3).
+Qed.
+
+Lemma run_entries_prefix c d rest : table_ok c -> forall ess st names L per all stf,
+  Forall (fun es => item_ok c (fst es)) ess ->
+  spec c d ess st names = Some (per, all, stf) ->
+  runf (esteps c d ess st) c d (between c (ess ++ rest) st names L) = between c rest stf all (L ++ all_log c d ess st per).
+Proof.
+  intros Ht. induction ess as [|[e sc] ess IH]; intros st names L per all stf Hb Hs.
+  - cbn in Hs. inversion Hs; subst. cbn [esteps tr_run_from all_log app]. rewrite app_nil_r. reflexivity.
+  - cbn [tr_spec] in Hs. destruct (spec_entry c d e sc st) as [[ln st1]|] eqn:Ee; [|discriminate].
+    destruct (spec c d ess st1 (tr_add_name names ln)) as [[[per' all'] stf']|] eqn:Er; [|discriminate].
+    inversion Hs; subst. inversion Hb as [|? ? Hb1 Hb2]; subst. cbn [fst] in Hb1.
+    cbn [esteps all_log app]. rewrite Ee, run_add.
+    rewrite (entry_run c d e sc (ess ++ rest) st names L ln st1 Ht Hb1 Ee).
+    rewrite (IH _ _ _ _ _ _ Hb2 Er), <- app_assoc. reflexivity.
+Qed.
+
+Lemma run_entries c d : table_ok c -> forall ess st names L per all stf,
+  Forall (fun es => item_ok c (fst es)) ess ->
+  spec c d ess st names = Some (per, all, stf) ->
+  runf (esteps c d ess st) c d (between c ess st names L) = between c [] stf all (L ++ all_log c d ess st per).
+Proof.
+  intros Ht ess st names L per all stf Hb Hs.
+  pose proof (run_entries_prefix c d [] Ht ess st names L per all stf Hb Hs) as Hr. rewrite app_nil_r in Hr. exact Hr.
+Qed.
+
+(* ---------- the whole run ---------- *)
+Definition full_log (c : tr_cfg) (d : path) (ess : list (tr_entry * tr_sched)) (f0 : fs) (per all : list name) : list (bool * msg) :=
+  [(true, TrNum digest (N.of_nat (length ess))); (false, TrSuccInt digest (N.of_nat (length ess)))]
+  ++ all_log c d ess (init_state f0) per ++ [(tc_upload c, TrExit digest all)].
+
+Notation fuel_go := (tr_fuel_go digest zcomp hx ahdr aparse).
+Notation fuel_items := (tr_fuel_items digest zcomp hx ahdr aparse).
+
+Lemma fuel_ok c d : forall ess st names per all stf, spec c d ess st names = Some (per, all, stf) ->
+  fuel_go c d ess st = (esteps c d ess st + 1)%nat.
+Proof.
+  induction ess as [|[e sc] ess IH]; intros st names per all stf Hs; [reflexivity|].
+  cbn [tr_spec] in Hs. cbn [tr_fuel_go esteps]. destruct (spec_entry c d e sc st) as [[ln st1]|]; [|discriminate].
+  destruct (spec c d ess st1 (tr_add_name names ln)) as [[[per' all'] stf']|] eqn:Er; [|discriminate].
+  rewrite (IH _ _ _ _ _ Er). lia.
+Qed.
+
+Lemma init_two_steps c d ess f0 :
+  runf 2 c d (tr_init digest c ess f0) =
+  between c ess (init_state f0) []
+    [(true, TrNum digest (N.of_nat (length ess))); (false, TrSuccInt digest (N.of_nat (length ess)))].
+Proof.
+  unfold tr_init, tr_sender_init, tr_receiver_init.
+  rewrite (run_S _ _ _ _ _ (step_recv' _ _ _ _ _ _ _ _)), rcv_num, Nat2N.id. cbn [fst snd app].
+  rewrite (run_one _ _ _ _ (step_send' _ _ _ _ _ _ _)), snd_num.
+  unfold between.
+  destruct (r_next c (length ess) (init_state f0) [] (map snd ess)) as [rn ro].
+  destruct (s_next c ess []) as [sn so]. cbn [fst snd]. f_equal; norm_log; reflexivity.
+Qed.
+
+Definition final_conf (c : tr_cfg) (stf : state) (all : list name) (log : list (bool * msg)) : conf :=
+  mkConf digest (mkSS SpDone [] all) (mkRS RpDone O stf all []) [] [] log.
+
+Lemma last_step c d stf all L :
+  runf 1 c d (between c [] stf all L) = final_conf c stf all (L ++ [(tc_upload c, TrExit digest all)]).
+Proof.
+  unfold between, final_conf. cbn [tr_s_next tr_r_next length map]. destruct (tc_upload c) eqn:Hu; cbn [fst snd].
+  - rewrite (run_one _ _ _ _ (step_recv' _ _ _ _ _ _ _ _)), rcv_exit. cbn [fst snd]. f_equal; norm_log; rewrite ?app_nil_r; reflexivity.
+  - rewrite (run_one _ _ _ _ (step_send' _ _ _ _ _ _ _)), snd_exit. cbn [fst snd]. f_equal; norm_log; rewrite ?app_nil_r; reflexivity.
+Qed.
+
+Lemma final_stuck c d stf all log : stepc c d (final_conf c stf all log) = None.
+Proof. reflexivity. Qed.
+
+Notation run_items := (tr_run_items digest H deq zcomp zdecomp zl unzl hx ahdr aparse).
+
+Theorem run_complete c d ess f0 per all stf : table_ok c ->
+  Forall (fun es => item_ok c (fst es)) ess ->
+  spec c d ess (init_state f0) [] = Some (per, all, stf) ->
+  forall fuel, (fuel_items c d ess f0 <= fuel)%nat ->
+  run_items fuel c d ess f0 = final_conf c stf all (full_log c d ess f0 per all).
+Proof.
+  intros Ht Hb Hs fuel Hf. unfold tr_run_items. unfold tr_fuel_items in Hf. rewrite (fuel_ok c d ess _ _ _ _ _ Hs) in Hf.
+  replace fuel with (2 + (esteps c d ess (init_state f0) + (1 + (fuel - 3 - esteps c d ess (init_state f0)))))%nat by lia.
+  rewrite run_add, init_two_steps, run_add, (run_entries c d Ht ess _ _ _ per all stf Hb Hs), run_add, last_step.
+  rewrite run_stuck by apply final_stuck. unfold full_log. norm_app. reflexivity.
+Qed.
+
+(* ---------- the receiver refuses an entry, or the resume exchange does not complete ---------- *)
+Lemma entry_fail c d e sc ess st names L :
+  item_ok c e -> (te_isdir e = true -> tr_json c = true) -> spec_entry c d e sc st = None ->
+  let cf := runf (tr_entry_steps digest zcomp hx ahdr c d e sc st) c d (between c ((e, sc) :: ess) st names L) in
+  stepc c d cf = None /\ tr_sender_ok digest cf = false /\ tr_receiver_ok digest cf = false.
+Proof.
+  intros Hok Hdj Hs.
+  assert (E0 : te_isdir e && negb (tr_json c) = false).
+  { destruct (te_isdir e); [rewrite (Hdj eq_refl); reflexivity | reflexivity]. }
+  unfold tr_entry_steps. pose proof Hs as Hs0. unfold tr_spec_entry in Hs. rewrite E0 in Hs.
+  destruct (tr_create c d (tr_payload c e) [] st) as [[ln|] st1] eqn:E1.
+  - destruct (tr_has_subs e) eqn:Hsub.
+    + (* an archive in order is never refused *)
+      exfalso. destruct (arch_item c e sc Hok Hsub) as (f & t & Ef & _ & _ & _ & Et). rewrite Ef, Et in Hs. discriminate.
+    + rewrite andb_false_r. destruct (te_isdir e) eqn:Hd; [discriminate|].
+      assert (E0' : te_isdir e && negb (tr_json c) = false) by (rewrite Hd; exact E0). clear E0. rename E0' into E0.
+      destruct (tr_json_names c && (0 <? tr_target_size d ln (tr_payload c e) st1)) eqn:E2.
+      * apply andb_true_iff in E2 as [Hj Hts].
+        destruct (target_size_pos d ln (tr_payload c e) st1 Hts) as [Hold _].
+        pose proof (resume_run_cases hx c e sc _ Hj Hold) as Hc. cbv zeta in Hc.
+        destruct (tr_resume_run hx c e sc (tr_old_content st1 (tr_leaf d ln (tr_payload c e)))) as [o|hs acks| | |] eqn:Er;
+          try (destruct (_ || _) in Hc; discriminate Hc).
+        -- discriminate.
+        -- replace (2 + (length (tr_resume_pre digest c e) + length hs + length acks))%nat
+             with (1 + (1 + (length (tr_resume_pre digest c e) + (length hs + length acks))))%nat by lia.
+           apply (entry_blocked c d e sc ess st names L ln st1 hs acks Hj Hsub Hd E0 E1 Hts Er).
+      * exfalso. pose proof (tr_create_indep c d (tr_payload c e) [] (te_data e) st) as Hi. rewrite E1 in Hi. cbn [fst] in Hi.
+        destruct (tr_create c d (tr_payload c e) (te_data e) st) as [[l2|] st2]; discriminate.
+  - cbv zeta. rewrite between_cons. cbn [plus].
+    rewrite (run_S _ _ _ _ _ (step_recv' _ _ _ _ _ _ _ _)), rcv_name. unfold tr_r_name. cbn [rs_st]. rewrite E1.
+    unfold tr_r_fail. cbn [fst snd app rs_st rs_names rs_phase rs_left rs_sched rs_open].
+    rewrite (run_one _ _ _ _ (step_send' _ _ _ _ _ _ _)). cbn [tr_sender ss_phase fst snd]. repeat split.
+Qed.
+
+Lemma spec_none_split c d : forall (ess : list (tr_entry * tr_sched)) st names, spec c d ess st names = None ->
+  exists pre e sc post per all st1, ess = pre ++ (e, sc) :: post /\
+    spec c d pre st names = Some (per, all, st1) /\ spec_entry c d e sc st1 = None.
+Proof.
+  induction ess as [|[e sc] ess IH]; intros st names Hs; [discriminate|].
+  cbn [tr_spec] in Hs. destruct (spec_entry c d e sc st) as [[ln st1]|] eqn:Ee.
+  - destruct (spec c d ess st1 (tr_add_name names ln)) as [[[per' all'] stf']|] eqn:Er; [discriminate|].
+    destruct (IH _ _ Er) as (pre & e2 & sc2 & post & per & all & st2 & -> & Hp & He).
+    exists ((e, sc) :: pre), e2, sc2, post, (ln :: per), all, st2. split; [reflexivity|]. split; [|exact He].
+    cbn [tr_spec]. rewrite Ee, Hp. reflexivity.
+  - exists [], e, sc, ess, [], names, st. repeat split. exact Ee.
+Qed.
+
+Lemma fuel_fail c d : forall pre e sc post st names per all st1,
+  spec c d pre st names = Some (per, all, st1) -> spec_entry c d e sc st1 = None ->
+  fuel_go c d (pre ++ (e, sc) :: post) st = (esteps c d pre st + tr_entry_steps digest zcomp hx ahdr c d e sc st1)%nat.
+Proof.
+  induction pre as [|[e0 sc0] pre IH]; intros e sc post st names per all st1 Hp He.
+  - cbn in Hp. inversion Hp; subst. cbn [app tr_fuel_go esteps]. rewrite He. lia.
+  - cbn [tr_spec] in Hp. cbn [app tr_fuel_go esteps]. destruct (spec_entry c d e0 sc0 st) as [[ln st2]|]; [|discriminate].
+    destruct (spec c d pre st2 (tr_add_name names ln)) as [[[per' all'] stf']|] eqn:Er; [|discriminate].
+    inversion Hp; subst. rewrite (IH e sc post st2 _ _ _ _ Er He). lia.
+Qed.
+
+Theorem run_incomplete c d ess f0 : table_ok c ->
+  Forall (fun es => item_ok c (fst es)) ess ->
+  Forall (fun es => te_isdir (fst es) = true -> tr_json c = true) ess ->
+  spec c d ess (init_state f0) [] = None ->
+  forall fuel, (fuel_items c d ess f0 <= fuel)%nat ->
+  tr_sender_ok digest (run_items fuel c d ess f0) = false /\
+  tr_receiver_ok digest (run_items fuel c d ess f0) = false.
+Proof.
+  intros Ht Hb Hdj Hs fuel Hf.
+  destruct (spec_none_split c d ess _ _ Hs) as (pre & e & sc & post & per & all & st1 & -> & Hp & He).
+  apply Forall_app in Hb as [Hb1 Hb2]. inversion Hb2 as [|? ? Hbe _]; subst. cbn [fst] in Hbe.
+  apply Forall_app in Hdj as [_ Hdj]. inversion Hdj as [|? ? Hdj1 _]; subst. cbn [fst] in Hdj1.
+  unfold tr_fuel_items in Hf. rewrite (fuel_fail c d pre e sc post _ _ _ _ _ Hp He) in Hf.
+  unfold tr_run_items.
+  set (n1 := esteps c d pre (init_state f0)) in *. set (n2 := tr_entry_steps digest zcomp hx ahdr c d e sc st1) in *.
+  replace fuel with (2 + (n1 + (n2 + (fuel - 2 - n1 - n2))))%nat by lia.
+  rewrite run_add, init_two_steps, run_add, (run_entries_prefix c d ((e, sc) :: post) Ht pre _ _ _ per all st1 Hb1 Hp), run_add.
+  match goal with |- context [between c ((e, sc) :: post) st1 all ?L] =>
+    destruct (entry_fail c d e sc post st1 all L Hbe Hdj1 He) as (A & B & C) end.
+  fold n2 in A, B, C. rewrite run_stuck by exact A. split; assumption.
+Qed.
 End TransferProofs.
